@@ -26,6 +26,10 @@ THEOREMS = [
     "Pt.ravelC_lt", "Pt.unravelC_ravelC", "Pt.ravelC_unravelC", "Pt.unravelC_inB",
     "Pt.ravelF_lt", "Pt.unravelF_ravelF", "Pt.ravelF_unravelF", "Pt.unravelF_inB",
     "Pt.lower_roll_correct", "Pt.lower_perm_correct", "Pt.lower_basic_correct",
+    "Pt.lower_stack_correct", "Pt.lower_concat_correct",
+    "Pt.lower_reshape1_correct_C", "Pt.lower_reshape1_correct_F",
+    "Pt.groups_valid", "Pt.lower_reshape_correct_C", "Pt.lower_reshape_correct_F",
+    "Pt.lower_reshape_total",
 ]
 
 
